@@ -65,6 +65,9 @@ enum Task {
     Cast(Prim, Prim),
     /// x as T1 as T2 ... (directly nested casts: every step has to extend / truncate on its own)
     CastChain(Prim, Vec<Prim>),
+    /// x op1 (C op2 x) / x op1 (x op2 C) / x op1 (y op2 x): the operand is computed from the variable
+    /// itself (partial products and sums that share wires with the other operand)
+    Compound(BinOp, BinOp, IntTy, Option<i128>, bool),
     /// bool operators & | ^ == != on bool inputs
     BoolOp(BinOp),
     /// a VarConst / ConstVar task whose literal constant is written without its type suffix (the
@@ -82,6 +85,7 @@ impl Task {
             Task::Not(t) => format!("not:{}", t.name()),
             Task::Cast(a, b) => format!("cast:{}->{}", a.name(), b.name()),
             Task::CastChain(a, bs) => format!("cast-chain:{}->{}", a.name(), bs.iter().map(|b| b.name()).collect::<Vec<_>>().join("->")),
+            Task::Compound(o1, o2, t, c, _) => format!("{}({}):{}:compound-{}", o1.sym(), o2.sym(), t.name(), if c.is_some() { "const" } else { "var" }),
             Task::BoolOp(op) => format!("{}:bool:var-var", op.sym()),
             Task::SuffixFree(t) => format!("{}:suffix-free-literal", t.key()),
         }
@@ -172,6 +176,19 @@ impl Task {
                 vec![*a],
                 *bs.last().unwrap(),
             ),
+            Task::Compound(o1, o2, t, c, const_first) => {
+                let inner = match (c, const_first) {
+                    (Some(c), true) => format!("{} {} x", t.lit(*c), o2.sym()),
+                    (Some(c), false) => format!("x {} {}", o2.sym(), t.lit(*c)),
+                    (None, _) => format!("y {} x", o2.sym()),
+                };
+                let params = if c.is_some() { format!("x: {}", t.name()) } else { format!("x: {0}, y: {0}", t.name()) };
+                (
+                    format!("pub fn main({params}) -> {} {{ x {} ({inner}) }}", t.name(), o1.sym()),
+                    if c.is_some() { vec![Prim::Int(*t)] } else { vec![Prim::Int(*t), Prim::Int(*t)] },
+                    Prim::Int(*t),
+                )
+            }
             Task::SuffixFree(_) => unreachable!(),
             Task::BoolOp(op) => (
                 format!("pub fn main(x: bool, y: bool) -> bool {{ x {} y }}", op.sym()),
@@ -205,6 +222,18 @@ impl Task {
                     from = *b;
                 }
                 Arith::Val(v)
+            }
+            Task::Compound(o1, o2, t, c, const_first) => {
+                let x = args[0];
+                let inner = match (c, const_first) {
+                    (Some(c), true) => ints::binop(*o2, *t, *c, x),
+                    (Some(c), false) => ints::binop(*o2, *t, x, *c),
+                    (None, _) => ints::binop(*o2, *t, args[1], x),
+                };
+                match inner {
+                    Arith::Val(v) => ints::binop(*o1, *t, x, v),
+                    other => other,
+                }
             }
             Task::BoolOp(op) => {
                 let (a, b) = (args[0] != 0, args[1] != 0);
@@ -612,6 +641,36 @@ fn build_tasks(tier: Tier, rng: &mut Rng) -> Vec<(Task, Vec<Vec<i128>>, bool)> {
                 None => (sample_values(rng, *a, n_rand_vals * 20), false),
             };
             tasks.push((Task::Cast(*a, *b), vals.into_iter().map(|v| vec![v]).collect(), exh));
+        }
+    }
+    // compound expressions whose operand is computed from the variable itself
+    {
+        let ops = [BinOp::Add, BinOp::Sub, BinOp::Mul, BinOp::BitAnd, BinOp::BitOr, BinOp::BitXor];
+        for t in [ints::U8, ints::I8, ints::U16, ints::U64] {
+            let small = t.bits == 8;
+            let consts: Vec<i128> = if t.signed { vec![0, 1, 2, 3, 100, 127, -1, -2, -128] } else { vec![0, 1, 2, 3, 100, 127, 200, 255] };
+            for o1 in ops {
+                for o2 in ops {
+                    for c in &consts {
+                        if !small && !(rng.chance(1, 6)) {
+                            continue;
+                        }
+                        // (multiplication by a negative literal is known finding KF-C03-1, judged by the
+                        // constant-operand tasks; it is not repeated inside compound expressions)
+                        if o2 == BinOp::Mul && *c < 0 {
+                            continue;
+                        }
+                        for const_first in [true, false] {
+                            let vals: Vec<Vec<i128>> = if small { (t.min_val()..=t.max_val()).map(|v| vec![v]).collect() } else { sample_values(rng, Prim::Int(t), 24).into_iter().map(|v| vec![v]).collect() };
+                            tasks.push((Task::Compound(o1, o2, t, Some(*c), const_first), vals, small));
+                        }
+                    }
+                    if small {
+                        let vals: Vec<Vec<i128>> = (t.min_val()..=t.max_val()).flat_map(|a| (t.min_val()..=t.max_val()).step_by(5).map(move |b| vec![a, b])).collect();
+                        tasks.push((Task::Compound(o1, o2, t, None, false), vals, false));
+                    }
+                }
+            }
         }
     }
     // cast chains: every triple of types, and sampled longer chains
